@@ -10,6 +10,7 @@ package main
 // server keeps serving correctly.
 
 import (
+	"runtime"
 	"encoding/binary"
 	"fmt"
 	"io"
@@ -127,6 +128,17 @@ func (s *Sess) genHostile(lim Limits) *Op {
 		op.Count = hostileU32(r, lim)
 		if op.Count > 1<<22 && r.Intn(4) != 0 {
 			op.Count = 1 << 20 // huge reads of huge sparse files are slow, not interesting more than a few times
+		}
+		if r.Intn(3) == 0 {
+			// a small live file read from its beginning with a count far beyond
+			// its size: the reply is a few bytes, whatever the count says
+			for _, o := range s.m.LiveObjs() {
+				if o.Kind == KReg && o.FH != nil && o.Size > 0 && o.Size < 1<<20 {
+					op.H, op.Off = o.FH, uint64(r.Intn(2))
+					op.Count = []uint32{1 << 30, 1<<31 - 1, 1 << 31, ^uint32(0)}[r.Intn(4)]
+					break
+				}
+			}
 		}
 	case OpWrite:
 		op.Off = hostileU64(r, lim)
@@ -267,7 +279,7 @@ func runHostile(seed uint64, cas int, tier string) *HostileRes {
 	res := &HostileRes{Keys: map[string]bool{}, Statuses: map[uint32]bool{}}
 	rng := NewRng(mix(seed, uint64(cas)+111111))
 	state := []string{"empty", "deep", "nearfull", "shrinking", "cold"}[cas%5]
-	p := Profile{Name: "C11", DiskBlocks: 30000, Unstable: cas%2 == 0, RPC: cas%3 == 1, W: allW(2), PBadName: 10, Own: []string{"canary", "crash", "hang"}}
+	p := Profile{Name: "C11", DiskBlocks: 30000, Unstable: cas%2 == 0, RPC: cas%3 == 1, W: allW(2), PBadName: 10, Own: []string{"canary", "crash", "hang", "memory"}}
 	if state == "nearfull" {
 		p.DiskBlocks = 2200
 		p.NearFull = true
@@ -323,7 +335,25 @@ func runHostile(seed uint64, cas int, tier string) *HostileRes {
 			op = s.genOp()
 		}
 		childLog("hostile state=%s req=%d %s", state, i, op)
+		// what the request may legitimately need: the bytes it supplies or asks
+		// for (a READ never returns more than the file has)
+		legit := uint64(op.DataLen)
+		if op.K == OpRead {
+			if o := s.m.Obj(op.H); o != nil && o.Kind == KReg && op.Off < o.Size {
+				legit = minU64(uint64(op.Count), o.Size-op.Off)
+			} else {
+				legit = 0
+			}
+		}
+		var ms0, ms1 runtime.MemStats
+		runtime.ReadMemStats(&ms0)
 		r := s.exec(op)
+		runtime.ReadMemStats(&ms1)
+		if got := ms1.TotalAlloc - ms0.TotalAlloc; got > 768<<20+8*legit {
+			// (the counter is process-wide: it includes the harness's disk and reference and background installation of earlier requests, hence the generous base)
+			res.Viol = append(res.Viol, Violation{Class: "memory", Msg: fmt.Sprintf("%s (status %d) made the process allocate %d MiB; the request supplies/asks for at most %d bytes that exist (two or three such requests at once exhaust the memory of the server)", op, r.Stat, got>>20, legit)})
+			break
+		}
 		res.Requests++
 		res.Keys[hostileKey(op, lim)] = true
 		res.Statuses[r.Stat] = true
